@@ -20,6 +20,8 @@
 (*             "mixed" at least one entry < 0 and at least one > 0         *)
 (*             "num"   numeric array of one of the GeomShapes (its         *)
 (*                     relevant facts are carried by geom instead)         *)
+(*          "oob" (index arrays of `faces` only): non-negative integers   *)
+(*          with at least one index that does not address a vertex;       *)
 (*          "empty" array with an extent 0; "str" / "none": the array has  *)
 (*          an entry that is a (non-numeric) string / None;                *)
 (*          str: "right" | "left" | "other";                               *)
